@@ -44,10 +44,17 @@ type env struct {
 	Passive   bool   `json:"passive_checks"`
 	Threshold int    `json:"passive_threshold,omitempty"`
 	WindowS   int    `json:"passive_window_s,omitempty"`
+	Breaker   bool   `json:"circuit_breaker"`
+	BrFail    int    `json:"cb_failure_threshold,omitempty"`
+	BrSucc    int    `json:"cb_success_threshold,omitempty"`
+	BrToS     int    `json:"cb_timeout_s,omitempty"`
 }
 
 func (e env) labels() []string {
 	l := []string{"active-checks-off", "passive-checks-off"}
+	if e.Breaker {
+		l = append(l, "circuit-breaker-on")
+	}
 	if e.Active {
 		l[0] = "active-checks-on"
 	}
@@ -77,6 +84,15 @@ func genEnv(rt *rapid.T) env {
 		e.Threshold = rapid.IntRange(1, 5).Draw(rt, "passive_threshold")
 		e.WindowS = rapid.SampledFrom([]int{1, 5, 30, 60}).Draw(rt, "passive_window")
 	}
+	// the circuit breaker (on in the shipped helios.yaml): every proxied answer of these histories is a 200, and an
+	// answer Helios gives itself because the pool is empty or ejected is no failed proxied request, so it has no
+	// reason to open
+	e.Breaker = rapid.IntRange(0, 9).Draw(rt, "circuit_breaker") < 4
+	if e.Breaker {
+		e.BrFail = rapid.SampledFrom([]int{1, 2, 3, 5}).Draw(rt, "cb_failure_threshold")
+		e.BrSucc = rapid.IntRange(1, 2).Draw(rt, "cb_success_threshold")
+		e.BrToS = rapid.SampledFrom([]int{1, 30, 60}).Draw(rt, "cb_timeout")
+	}
 	return e
 }
 
@@ -95,10 +111,14 @@ func newSysEnv(strategy string, n int, e env, fn *lab.FakeNet) (*sys, []inst, er
 	cfg.HealthChecks.Active.Interval, cfg.HealthChecks.Active.Timeout, cfg.HealthChecks.Active.Path = e.IntervalS, e.TimeoutS, e.Path
 	cfg.HealthChecks.Passive.Enabled = e.Passive
 	cfg.HealthChecks.Passive.UnhealthyThreshold, cfg.HealthChecks.Passive.UnhealthyTimeout = e.Threshold, e.WindowS
+	if e.Breaker {
+		cfg.CircuitBreaker = config.CircuitBreakerConfig{Enabled: true, FailureThreshold: e.BrFail, SuccessThreshold: e.BrSucc, IntervalSeconds: 60, TimeoutSeconds: e.BrToS}
+	}
 	// the health-check section must be one a configuration file may carry (the histories themselves also
 	// start from an empty pool, which a file may not: validated beside one backend)
 	vc := lab.BaseConfig(strategy, lab.Ones(1))
 	vc.HealthChecks = cfg.HealthChecks
+	vc.CircuitBreaker = cfg.CircuitBreaker
 	if err := vc.Validate(); err != nil {
 		return nil, nil, fmt.Errorf("health-check section rejected: %v", err)
 	}
